@@ -50,6 +50,10 @@ pub struct Composite {
     pub id: String,
     pub deps: Vec<Dep>,
     pub platform: Option<String>,
+    /// the directory inside the workspace is a symbolic link to the real one outside of it
+    /// (a definition shared between repositories)
+    #[serde(default)]
+    pub via_symlink: bool,
 }
 
 #[derive(Clone, Debug, PartialEq, Serialize, Deserialize)]
@@ -169,8 +173,18 @@ pub fn generate(seed: u64, tier: &str, index: u64) -> Workspace {
                 _ => Dep::Verbatim((*r.pick(&["docker://docker.io/heroku/buildpack-procfile:4.2.1", "https://example.com/bp.tgz", "urn:cnb:registry:heroku/nodejs"])).to_string()),
             });
         }
+        // sometimes the composite's directory is a link to a directory outside the workspace
+        // (never the one the command is run from, and without relative-path dependencies)
+        let via_symlink = (stratum == 0 && c == 0 && index % 8 == 0) || (stratum != 1 && r.chance(1, 6));
+        if via_symlink {
+            deps.retain(|d| !matches!(d, Dep::Rel(_)));
+            if deps.is_empty() {
+                deps.push(Dep::Libcnb(r.pick(&libcnb).id.clone()));
+            }
+        }
         composites.push(Composite {
             dir,
+            via_symlink,
             id: format!("meta/comp{c}"),
             deps,
             platform: match r.below(3) {
@@ -191,6 +205,17 @@ pub fn generate(seed: u64, tier: &str, index: u64) -> Workspace {
             _ => From::Root,
         },
     };
+    let from = match from {
+        From::Composite(i) if composites[i].via_symlink => From::Root,
+        other => other,
+    };
+    // every other workspace packaged from a libcnb.rs buildpack's directory: that buildpack
+    // lives inside a composite's directory (components kept next to their meta-buildpack)
+    if let (From::Libcnb(j), Some(c0)) = (&from, composites.iter().find(|c| !c.via_symlink)) {
+        if index % 8 == 2 {
+            libcnb[*j].dir = format!("{}/components/{}", c0.dir, libcnb[*j].crate_name);
+        }
+    }
     Workspace {
         libcnb,
         composites,
@@ -246,7 +271,19 @@ pub fn materialise(w: &Workspace, base: &Path) -> std::io::Result<Layout> {
         )?;
     }
     for c in &w.composites {
-        let d = ws.join(&c.dir);
+        let d = if c.via_symlink {
+            let real = base.join("ext").join(c.dir.replace('/', "_"));
+            std::fs::create_dir_all(&real)?;
+            let link = ws.join(&c.dir);
+            if let Some(parent) = link.parent() {
+                std::fs::create_dir_all(parent)?;
+            }
+            let _ = std::fs::remove_file(&link);
+            std::os::unix::fs::symlink(&real, &link)?;
+            real
+        } else {
+            ws.join(&c.dir)
+        };
         std::fs::create_dir_all(&d)?;
         let mut bt = format!("api = \"0.10\"\n\n[buildpack]\nid = {}\nversion = \"0.{}.1\"\n\n[[order]]\n", escape(&c.id), w.token % 89);
         for dep in &c.deps {
